@@ -1,4 +1,4 @@
-\* C17 spec-level negative controls: small spaces; c17.py sets Mode, switches ONE of the nine negative-control constants
+\* C17 spec-level negative controls: small spaces; c17.py sets Mode, switches ONE of the negative-control constants
 \* to TRUE, keeps ONE invariant and requires TLC to report it (see CopyrightDoc.tla)
 CONSTANTS
   Mode = "codec"
@@ -21,6 +21,7 @@ CONSTANTS
   CommaSeparates = FALSE
   RejectDrops = FALSE
   MayAcceptedSplits = FALSE
+  ArgAliased = FALSE
   RejAt = {1}
   RejThen = 2
   RejEditAt = {1}
